@@ -1,11 +1,16 @@
-"""C20 — The C API is a faithful binding of the engine (forwarding-table half).
+"""C20 — The C API is a faithful binding of the engine.
 
 Proof: the forwarding table generated from Core-C-API.cpp equals the table documented in core.h (Props/C20.lean).
-Tie/oracle: a client written only against the public C API (harness/vc20.cpp) runs one scenario per documented
-parameter effect; python checks each effect on the callback trace (no model needed: the expectations are the sentences
-of core.h)."""
-import os, re, shutil, subprocess
+Tie/oracle 1 (scenarios): a client written only against the public C API (harness/vc20.cpp) runs one scenario per
+documented parameter effect; python checks each effect on the callback trace (the expectations are the sentences of core.h).
+Tie/oracle 2 (event-by-event differential, `corr_events`): harness/vengine_capi.cpp interprets the engine DSL of
+vlib/engine.py with ONE client logic bound either to the public C API (`capi`) or to the C++ interface (`cxx`); the same
+programs, histories and completion schedules go to both; every op's output line (the event trace of each build on the
+alphabet core.h lets a client observe, the build result, and a canonical dump of the SQLite database after every build)
+must be byte-identical.  Any difference is the property's own oracle failing (kind "capi-diverges")."""
+import json, os, re, shutil, subprocess, threading
 from .. import common as C
+from .. import engine as E
 from ..runner import PropertyCheck
 
 
@@ -50,19 +55,165 @@ class Trace:
         return -1
 
 
+# ----------------------------------------------------------------------------------------------
+# event-by-event differential stream (harness/vengine_capi.cpp)
+# ----------------------------------------------------------------------------------------------
+SCHEMAS = [9, 10, 0, 1, 77, 4294967295]
+
+
+class EvCase:
+    """op lines for vengine_capi + the number of output lines + output line -> input line index"""
+
+    def __init__(self, prefix, rules, ops):
+        self.prefix, self.rules, self.ops = prefix, rules, ops
+        self.lines, self.out_to_in = ["W", "KB " + hx(prefix), "P %d" % len(rules)], [0, 1, 2]
+        self.lines += [rules[k].line() for k in sorted(rules)]
+        for o in ops:
+            self.out_to_in.append(len(self.lines))
+            if o["op"] == "SV":
+                self.lines.append("SV %d" % o["val"])
+            else:
+                self.lines.append(E.op_line(o))
+            if o["op"] == "B":
+                self.out_to_in.append(len(self.lines))
+                self.lines.append("D")
+        self.nout = len(self.out_to_in)
+
+    @staticmethod
+    def raw(lines):
+        """a case from bare op lines (replay files, corpus)"""
+        c = EvCase.__new__(EvCase)
+        c.prefix, c.rules, c.ops = b"", {}, []
+        c.lines, c.out_to_in = list(lines), []
+        skip = 0
+        for i, l in enumerate(lines):
+            if skip:
+                skip -= 1
+                continue
+            c.out_to_in.append(i)
+            t = l.split()
+            if t and t[0] == "P":
+                skip = int(t[1])
+        c.nout = len(c.out_to_in)
+        return c
+
+
+def restrict_to_core_h(rules):
+    """what core.h can express: no rule signatures, no single-use requests"""
+    def fix(q):
+        return (q[0], q[1], 0 if q[2] == 1 else q[2])
+    for r in rules.values():
+        r.sigBase = 0
+        r.statics = [fix(q) for q in r.statics]
+        r.whens = [(c, [fix(q) for q in reqs]) for c, reqs in r.whens]
+    return rules
+
+
+def gen_prefix(rng):
+    c = rng.below(10)
+    if c == 0:
+        return b""
+    if c == 1:
+        return b"\x00"
+    if c == 2:
+        return b"\xff"
+    if c == 3:
+        return b"a\x00b"
+    if c == 4:
+        return b"\x00\xffN"
+    if c == 5:
+        return b"k1"            # a prefix that looks like a key
+    return rng.bytes_from([0, 0, 0xff, 0x41, 0x6b, 0x31, 0x20, 0x0a, 0x80], 6, 1)
+
+
+def gen_ev_case(rng, thorough):
+    nk = 4 + rng.below(9 if not thorough else 14)
+    shape = rng.below(6)
+    rules = E.gen_program(rng, nk, cyclic=shape == 0, malformed=shape in (0, 1), mustfollow=rng.chance(1, 2))
+    restrict_to_core_h(rules)
+    nops = 2 + rng.below(8 if not thorough else 16)
+    ops = []
+    schema = 9
+    for o in E.gen_history(rng, rules, nops, cancel=False, threads=False, allow_restart=True, allow_revert=True, crash=False):
+        if o["op"] == "M" and E.SIG_OFFSET <= o["slot"] < E.FLAG_OFFSET:
+            continue            # signatures do not exist in llb_rule_t
+        if o["op"] == "E" and rng.chance(1, 5):
+            schema = rng.choice([v for v in SCHEMAS if v != schema])
+            ops.append({"op": "SV", "val": schema})
+        ops.append(o)
+    return EvCase(gen_prefix(rng), rules, ops)
+
+
+def run_ev_mode(exe, mode, scratch, cases, timeout=900):
+    """as vlib.engine.run_harness: per case the list of output lines, or None when the process stalled/crashed there"""
+    res = [None] * len(cases)
+    problems = []
+    start = 0
+    while start < len(cases):
+        lines = []
+        for c in cases[start:]:
+            lines += c.lines
+        try:
+            p = subprocess.run([exe, mode, scratch], input=("\n".join(lines) + "\n").encode(), stdout=subprocess.PIPE,
+                               stderr=subprocess.PIPE, timeout=timeout)
+            rc, out, err = p.returncode, p.stdout.decode("latin-1").split("\n"), p.stderr.decode("latin-1")[-800:]
+        except subprocess.TimeoutExpired as e:
+            rc, out, err = -9, (e.stdout or b"").decode("latin-1").split("\n"), "timeout"
+        if out and out[-1] == "":
+            out.pop()
+        pos, i = 0, start
+        while i < len(cases):
+            n = cases[i].nout
+            if pos + n <= len(out) and not any(l.startswith("STALL") for l in out[pos:pos + n]):
+                res[i] = out[pos:pos + n]
+                pos += n
+                i += 1
+            else:
+                break
+        if i >= len(cases):
+            break
+        problems.append({"case": i, "rc": rc, "stderr": err, "partial": out[pos:]})
+        start = i + 1
+    return res, problems
+
+
+def first_event_diff(a, b, sep=" ; "):
+    ea, eb = a.split(sep), b.split(sep)
+    for i in range(max(len(ea), len(eb))):
+        x = ea[i] if i < len(ea) else "<end>"
+        y = eb[i] if i < len(eb) else "<end>"
+        if x != y:
+            return i, x, y
+    return None
+
+
 class Check(PropertyCheck):
     prop = "C20"
     module = "LLBuild.Props.C20"
     theorems = ["LLBuild.CApi.C20_forwarding_faithful", "LLBuild.CApi.C20_bytes_preserved"]
     extractors = ["x_capi"]
-    harnesses = [("vc20", "plain")]
+    harnesses = [("vc20", "plain"), ("vengine_capi", "plain")]
     assumptions = [
         "`documented` (LLBuild/Model/CApi.lean) is a faithful reading of the comments of core.h",
         "the engine entry points themselves (TaskInterface::request / mustFollow / discoveredDependency / complete, BuildEngine::attachDB / build, createSQLiteBuildDB) behave as specified: C01-C07, C03",
-        "callbacks in the other direction (lookup_rule, create_task, is_result_valid, provide_value ...) are covered only by the extracted llb_data_t shapes and the scenarios; the event-by-event C vs C++ comparison is a separate check",
+        "'same task callbacks, executions, results and persisted state as the C++ interface' is decided by the event-by-event differential stream "
+        "(sampled, not proved): identical DSL client logic bound to the C API and to the C++ interface, identical ops and completion schedules, "
+        "byte-identical event traces / results / database dumps required.  The alphabet is what core.h lets a client observe (lookup_rule, "
+        "update_status, is_result_valid, create_task, start, provide_value, inputs_available, completions, cycle_detected, error, build result, "
+        "task destruction); createExecutionQueue, determinedRuleNeedsToRun, providePriorValue, rule signatures, single-use requests and cancellation "
+        "have no counterpart in core.h and are outside the comparison",
+        "agreement of a C-API client with the Lean engine model is NOT checked directly: it follows from C-API = C++ on the restricted alphabet (this "
+        "stream) plus C++ traces (full alphabet) are accepted by the model (C01-C07 checks, `enginecheck` monitor); the cxx-mode traces of this "
+        "stream are not fed to the monitor a second time",
+        "dependency flags (order-only / single-use) are not exposed by db.h: in the database dump they are read with the C++ reader of the same "
+        "SQLite file in both modes; keys, values, epochs and dependency keys are read through db.h (llb_database_open / get_keys / "
+        "lookup_rule_result / get_epoch) in capi mode and through BuildDB::getKeysWithResult in cxx mode",
     ]
     trusted_base = ["extractor x_capi (clang-14 JSON AST of Core-C-API.cpp)", "harness vc20 (client of the public C API only)",
-                    "python scenario oracle (one scenario per documented parameter effect)"]
+                    "python scenario oracle (one scenario per documented parameter effect)",
+                    "harness vengine_capi (one DSL client logic, two bindings; hook-driven completion schedules through llbuild::core::verifEngineHook; "
+                    "canonical database dump)",
+                    "vlib/engine.py generators (programs, histories) and the line-by-line comparison in c20.py"]
 
     # each scenario: (name, discriminating keys, ops, checker(traces) -> list of problems)
     def scenarios(self, ctx, dbdir):
@@ -235,9 +386,153 @@ class Check(PropertyCheck):
         res.rule = ("forwarding table: generated for all exported llb_buildengine_* functions and compared with the documented table by the "
                     "theorem (finite, complete). Scenarios through the public C API: one per documented parameter effect (force_change true/false, "
                     "must_follow, needs_input with input ids, discovered dependency reported/not, attach_db same/different schema version/no db), keys "
-                    "and values with NUL/0xFF bytes, plus seeded force_change chains. Non-trivial = scenarios executed to the end.")
-        res.exhaustive = True
+                    "and values with NUL/0xFF bytes, plus seeded force_change chains. Non-trivial = scenarios executed to the end. "
+                    "Event stream: seeded DSL programs (4-12 keys; thorough 4-17; static, value-dependent dynamic, must-follow and discovered requests, "
+                    "always/never/flag validity, forced and deferred completions, 1/6 cyclic, 1/3 with discovered dependencies on derived rules) x "
+                    "histories of mutate/build/restart(+schema version change), every build with a random hook-driven completion schedule, every key "
+                    "named <prefix>k<n> with a seeded byte prefix (NUL / 0xFF / empty / key-like); run once through the C API and once through the "
+                    "C++ interface; all output lines (event trace, result, database dump after every build) compared verbatim. Non-trivial = a "
+                    "history with more than one build in which a task ran and whose database holds a row with dependencies.")
+        res.exhaustive = False      # the forwarding table is complete; scenarios and the event stream are sampled
         shutil.rmtree(dbdir, ignore_errors=True)
+        self.corr_events(ctx, res)
+
+    # ---------------------------------------------------------------------------------------------
+    # event-by-event comparison C API vs C++ interface
+    def corr_events(self, ctx, res):
+        exe = ctx.exe[("vengine_capi", "plain")]
+        scratch = os.path.join(C.BUILD, "scratch", "c20ev-%d" % os.getpid())
+        os.makedirs(scratch, exist_ok=True)
+        rng = C.Rng(ctx.seed, "C20/events")
+        cases = []
+        rp = getattr(ctx, "replay_path", None)
+        if rp:
+            try:
+                ops = json.load(open(rp)).get("failure", {}).get("input", {}).get("ops")
+                if ops and ops[0] == "W":
+                    cases.append(EvCase.raw(ops))
+            except Exception as e:
+                C.log("replay file not usable for the event stream: %s" % e)
+        import glob
+        for p in sorted(glob.glob(os.path.join(C.VERIF, "corpus", "C20", "*.ops"))):
+            cases.append(EvCase.raw([l for l in open(p).read().split("\n") if l.strip()]))
+        ncorp = len(cases)
+        n = 2000 if ctx.thorough else 150
+        cases += [gen_ev_case(rng, ctx.thorough) for _ in range(n)]
+        # both modes, in parallel chunks
+        nchunk = 8 if ctx.thorough else 4
+        chunks = [list(range(i, len(cases), nchunk)) for i in range(nchunk)]
+        outs = {"capi": [None] * len(cases), "cxx": [None] * len(cases)}
+        probs = {"capi": {}, "cxx": {}}
+
+        def work(mode, idxs):
+            r, pr = run_ev_mode(exe, mode, scratch, [cases[i] for i in idxs])
+            for i, o in zip(idxs, r):
+                outs[mode][i] = o
+            for p in pr:
+                probs[mode][idxs[p["case"]]] = p
+        ths = [threading.Thread(target=work, args=(m, ch)) for m in ("capi", "cxx") for ch in chunks if ch]
+        for t in ths:
+            t.start()
+        for t in ths:
+            t.join()
+        st = {"histories": len(cases), "corpus_or_replay": ncorp, "builds": 0, "tasks": 0, "provide_value": 0, "must_follow_requests": 0,
+              "discovered_reports": 0, "forced_completions": 0, "deferred_programs": 0, "cycles": 0, "errors": 0, "restarts": 0,
+              "schema_changes": 0, "up_to_date": 0, "is_result_valid": 0, "db_rows": 0, "db_order_only_deps": 0,
+              "prefix_with_nul": 0, "prefix_with_ff": 0, "prefix_empty": 0, "prefix_starts_with_nul": 0, "diverging": 0}
+        for i, c in enumerate(cases):
+            a, b = outs["capi"][i], outs["cxx"][i]
+            res.evaluations += 1
+            if b is None:
+                pr = probs["cxx"].get(i, {})
+                if a is None:
+                    # the engine stalled/crashed under BOTH bindings: not a binding divergence; the tie is broken
+                    if len(res.mismatches) < 10:
+                        res.mismatches.append({"stream": "capi-events", "input": {"ops": c.lines},
+                                               "impl": "the engine stalled/crashed under both bindings (cxx exit %s): %s" % (pr.get("rc"), " | ".join(pr.get("partial", [])[-2:])[-400:])})
+                    continue
+                a = a or []
+            if a is None or b is None:
+                which = "capi" if a is None else "cxx"
+                pr = probs[which].get(i, {})
+                st["diverging"] += 1
+                st.setdefault("first_divergence", {"what": "%s client crashed/stalled (exit %s)" % (which, pr.get("rc")), "ops": len(c.lines)})
+                res.oracle_failures.append({
+                    "what": "C API vs C++ interface: the %s client %s (harness exit %s) on a history the other client runs to the end; last output: %s"
+                            % (which, "stalled" if pr.get("rc") in (3, -9) else "crashed", pr.get("rc"), " | ".join(pr.get("partial", [])[-2:])[-500:]),
+                    "kind": "capi-diverges", "how": "crash-or-stall", "input": {"ops": c.lines}})
+                continue
+            d = next((j for j in range(c.nout) if a[j] != b[j]), None)
+            if d is not None:
+                st["diverging"] += 1
+                upto = c.out_to_in[d]
+                opl = c.lines[upto]
+                fe = first_event_diff(a[d], b[d], " | " if opl == "D" else " ; ")
+                what = "C API vs C++ interface: op `%s` (output line %d) differs" % (opl[:80], d)
+                if fe:
+                    what += "; first differing %s #%d: capi `%s` vs cxx `%s`" % ("event" if opl.startswith("B") else "database row" if opl == "D" else "field", fe[0], fe[1][:200], fe[2][:200])
+                st.setdefault("first_divergence", {"what": what, "ops": len(c.lines[:upto + 1])})
+                res.oracle_failures.append({
+                    "what": what, "kind": "capi-diverges", "how": "output-differs", "op": opl.split()[0],
+                    "first_difference": {"output_line": d, "op": opl, "capi": a[d][:3000], "cxx": b[d][:3000]},
+                    "input": {"ops": c.lines[:upto + 1], "key_prefix_hex": hx(c.prefix)}})
+                continue
+            # agreement: statistics from the (identical) traces
+            nb = ran = 0
+            for o, l in zip([c.lines[k] for k in c.out_to_in], b):
+                t = o.split()[0]
+                if t == "E":
+                    st["restarts"] += 1
+                elif t == "SV":
+                    st["schema_changes"] += 1
+                elif t == "B":
+                    nb += 1
+                    for e in E.parse_trace(l):
+                        k = e[0]
+                        if k == "T":
+                            ran += 1
+                        elif k == "PV":
+                            st["provide_value"] += 1
+                        elif k == "IA" and e[2] != "0":
+                            st["discovered_reports"] += 1
+                        elif k == "C" and e[3] == "1":
+                            st["forced_completions"] += 1
+                        elif k == "CY":
+                            st["cycles"] += 1
+                        elif k == "ER":
+                            st["errors"] += 1
+                        elif k == "S" and e[2] == "1":
+                            st["up_to_date"] += 1
+                        elif k == "V":
+                            st["is_result_valid"] += 1
+                        if k in ("ST", "PV"):
+                            rq = e[3:] if k == "ST" else e[6:]
+                            st["must_follow_requests"] += sum(1 for j in range(2, len(rq), 3) if rq[j] == "2")
+            st["builds"] += nb
+            st["tasks"] += ran
+            if any(r.deferred for r in c.rules.values()):
+                st["deferred_programs"] += 1
+            if c.prefix == b"":
+                st["prefix_empty"] += 1
+            st["prefix_with_nul"] += 1 if b"\x00" in c.prefix else 0
+            st["prefix_with_ff"] += 1 if b"\xff" in c.prefix else 0
+            st["prefix_starts_with_nul"] += 1 if c.prefix[:1] == b"\x00" else 0
+            dumps = [l for o, l in zip([c.lines[k] for k in c.out_to_in], b) if o == "D"]
+            rows_with_deps = 0
+            if dumps:
+                rows = dumps[-1].split(" | ")[1:]
+                st["db_rows"] += len(rows)
+                for r in rows:
+                    f = r.split()
+                    rows_with_deps += 1 if len(f) > 4 else 0
+                    st["db_order_only_deps"] += sum(1 for x in f[4:] if x.endswith(":1"))
+            if nb > 1 and ran > 0 and rows_with_deps > 0:
+                res.distinct_nontrivial += 1
+            if len(res.samples) < 4 and nb > 1 and ran > 2:
+                res.samples.append({"event_stream_ops": c.lines[:12], "first_trace": next((x for x in b if x.startswith("B ")), "")[:400],
+                                    "last_dump": (dumps[-1] if dumps else "")[:300]})
+        res.distribution["event_stream"] = st
+        shutil.rmtree(scratch, ignore_errors=True)
 
     def search(self, ctx, res, why):
         return   # the scenarios are the directed search: every documented parameter has one
